@@ -703,12 +703,15 @@ def generate():
                "Definition freeTracker_keeps (received_count : Z) : bool := %s." % (ast.unparse(st[0].test), fn.cond(test, env)))
     out.append("Inductive delkey := DelByClid | DelByIdentity.")
     if ast.unparse(st[1]) == "if tracker.clid in self.yourReferenceByCLID:\n    del self.yourReferenceByCLID[tracker.clid]":
-        out.append("(* the import-table entry is deleted by the tracker's clid, whichever tracker is registered there *)\n"
+        # the rule before ab72d65 (D16): still translated, so that the model can be evaluated against such a tree; RefsProofs.same_proxy
+        # (`eq_refl : freeTracker_delkey = DelByIdentity`) no longer type-checks then
+        out.append("(* the import-table entry is deleted by the tracker's clid, whichever tracker is registered there (D16) *)\n"
                    "Definition freeTracker_delkey : delkey := DelByClid.")
     elif ast.unparse(st[1]) in (
             "if self.yourReferenceByCLID.get(tracker.clid) is tracker:\n    del self.yourReferenceByCLID[tracker.clid]",
             "if self.yourReferenceByCLID.get(tracker.clid, None) is tracker:\n    del self.yourReferenceByCLID[tracker.clid]"):
-        out.append("Definition freeTracker_delkey : delkey := DelByIdentity.")
+        out.append("(* the import-table entry is deleted only if it still is the answered tracker (fix ab72d65) *)\n"
+                   "Definition freeTracker_delkey : delkey := DelByIdentity.")
     else:
         raise P.Untranslatable("freeYourReferenceTracker: unexpected deletion from yourReferenceByCLID: " + ast.unparse(st[1]))
 
